@@ -164,6 +164,55 @@ fn check_sized_small(total: u64, sent: usize, n: usize, st: &mut Stats) -> Resul
     Ok(())
 }
 
+/// Stage 'query_pairs': two questions in a row on one flow - buffer lengths from a menu that reaches beyond 2^32 - then the write
+/// for the second one when it is small enough to perform. Each answer must respect m <= n, agree with the answer a fresh flow
+/// gives (the question has no memory) and stay monotone over the menu.
+fn exec_query_pairs(t: &mut Tape, st: &mut Stats) -> Result<(), String> {
+    const MENU: [usize; 16] = [
+        0, 5, 9, 4_096, 16_384, 65_535, 65_536, 65_544, 1 << 20, (1 << 31) + 7, u32::MAX as usize, 1 << 32, (1 << 32) + 9, (1 << 32) + 4_096,
+        (1 << 32) + 16_384, (1 << 40) + 12_345,
+    ];
+    let a = MENU[t.below(16)];
+    let b = MENU[t.below(16)];
+    let kind = kind_of([0usize, 1, 9][t.below(3)]);
+    st.evals(1);
+    let mut s = Sender::new(Api::Flow, kind)?;
+    let chunked = s.is_chunked().unwrap();
+    let ma = s.max_input(a).unwrap();
+    let mb = s.max_input(b).unwrap();
+    let fresh_a = Sender::new(Api::Flow, kind)?.max_input(a).unwrap();
+    let fresh_b = Sender::new(Api::Flow, kind)?.max_input(b).unwrap();
+    st.describe(|| json!({"stage": "query_pairs", "kind": format!("{:?}", kind), "first": a, "second": b, "answers": [ma, mb]}));
+    if ma > a || mb > b {
+        return Err(format!("{:?}: calculate_max_input({}) = {} then calculate_max_input({}) = {}: an answer exceeds its n", kind, a, ma, b, mb));
+    }
+    if ma != fresh_a || mb != fresh_b {
+        return Err(format!(
+            "{:?}: asked {} then {} on one flow: answers {} and {}, but fresh flows answer {} and {}",
+            kind, a, b, ma, mb, fresh_a, fresh_b
+        ));
+    }
+    if (a <= b && ma > mb) || (b <= a && mb > ma) {
+        return Err(format!("{:?}: calculate_max_input({}) = {} but calculate_max_input({}) = {}: not monotone", kind, a, ma, b, mb));
+    }
+    if !chunked && (ma != a || mb != b) {
+        return Err(format!("length-delimited: calculate_max_input({}) = {}, calculate_max_input({}) = {}", a, ma, b, mb));
+    }
+    st.class("query_pair");
+    if a >= 1 << 31 || b >= 1 << 31 {
+        st.count_nontrivial(1);
+    }
+    // the write the second answer promises, on the same flow, when the buffer can be materialised
+    if b <= 1 << 20 && mb >= 1 {
+        let input = &pattern()[..mb];
+        let (c, _p) = with_out(b, |out| s.write(input, out)).map_err(|e| format!("write({}, out = {}) after asking about {}: {:?}", mb, b, a, e))?;
+        if c != mb {
+            return Err(format!("{:?}: after asking about {} and {}, a write of the advertised {} bytes into {} bytes consumed {}", kind, a, b, mb, b, c));
+        }
+    }
+    Ok(())
+}
+
 fn exec_enum(t: &mut Tape, st: &mut Stats) -> Result<(), String> {
     let k = t.below(4);
     let n = t.below(ENUM_MAX as usize + 1);
@@ -203,7 +252,7 @@ HTTP/1.0, caller-supplied framing in unusual legal shapes rotating with n (Trans
 Content-Length of 3, codings on two lines next to a Content-Length, the body state reached through Await100 with and without the interim 100, framing added with Flow::header() before send-body-despite-method, SendRequest::write called again after the head was complete), every fourth case after a finishing attempt that found no room (buffer 0..4: nothing emitted, body not finished); plus calculate_max_input(n) == n on a 1000-byte declared length, fresh and after 300..999 bytes were sent} on a Flow in the \
 body state: m = calculate_max_input(n) must satisfy m <= n, m(n-1) <= m(n), m == n when not chunked, and \
 one write of m pattern bytes into an n-byte buffer must consume exactly m and decode (strict chunk decoder / \
-identity) to that input. random: n up to 2^22 biased to multiples of the chunk unit, sixteen body kinds. \
+identity) to that input. enumeration 'query_pairs' (768): two questions in a row on one flow over a menu of 16 lengths up to 2^40 (asking needs no buffer), answers must not exceed n, must equal a fresh flow's and be monotone; the promised write is performed when the second length is <= 1 MiB. random: n up to 2^22 biased to multiples of the chunk unit, sixteen body kinds. \
 non-trivial = m > 0 and n within 16 of a hex-digit boundary (16^k + overhead) or of a multiple of \
 chunk+overhead; distinct by (n, chunked).",
     assumptions: &[
@@ -211,13 +260,22 @@ chunk+overhead; distinct by (n, chunked).",
         "m == 0 is vacuous: an empty write is the end signal and is not issued",
     ],
     exec: exec_enum,
-    enums: &[EnumDef {
+    enums: &[
+        EnumDef {
+            name: "query_pairs",
+            count: |_| 16 * 16 * 3,
+            tape: |_, idx| vec![(idx % 16) as u32, ((idx / 16) % 16) as u32, (idx / 256) as u32],
+            exhaustive: true,
+            exec: Some(exec_query_pairs),
+        },
+        EnumDef {
         name: "all_n",
         count: |_| 4 * (ENUM_MAX + 1),
         tape: |_, idx| vec![(idx % 4) as u32, (idx / 4) as u32],
         exhaustive: true,
         exec: None,
-    }],
+    },
+    ],
     randoms: &[RandomDef {
         name: "large_n",
         cases: |t: Tier| t.pick(100_000, 1_000_000),
